@@ -39,3 +39,56 @@ PLANS["C01"] = {
     "level_note": "Trusted: the reference model (about 150 lines), the harness's independent address canonicalisation, rustc. Sequential only.",
     "design_ref": "3/C01",
 }
+
+
+def swarm_steps(name, binary, tier, extra=None, quick_budget=25):
+    extra = extra or []
+    if tier == "quick":
+        return [{"name": name, "bin": binary, "args": ["--histories", "20000", "--budget_s", str(quick_budget)] + extra}]
+    return shards(name, binary, 16, ["--histories", "100000000", "--budget_s", "110"] + extra)
+
+
+PLANS["C07"] = {
+    "title": "HTTP swarm bookkeeping equals a reference tracker",
+    "level": "exploration",
+    "engine": "swarm_diff",
+    "technique": "differential runtime monitor: real http swarm-worker TorrentMaps (mock clock) vs reference model after every operation of random histories",
+    "packages": ["vhttp"],
+    "parallel": 16,
+    "steps": lambda tier, seed: swarm_steps("http_swarm", "http_swarm", tier),
+    "min_evaluations": {"quick": 50000, "thorough": 1000000},
+    "assumptions": ["sequential histories on one swarm worker (C16 covers routing across workers)", "reference model vcore::model"],
+    "level_text": "Exploration: the HTTP swarm worker's storage is driven through random announce/scrape/clean histories (both families, mapped sources, all events, numwant absent/0/n, inline(<=4)<->heap switches, repeated hashes, scrapes beyond max_scrape_torrents, stops on unknown torrents) under a mock clock and compared with the reference model after every operation, including the stored torrent count after each clean.",
+    "level_note": "Trusted: the reference model, the re-export hook (verif_api) exposing the otherwise private storage module unchanged, the mock clock hook.",
+    "design_ref": "3/C07",
+}
+
+PLANS["C08"] = {
+    "title": "WebTorrent swarm bookkeeping and per-connection ownership of peers",
+    "level": "exploration",
+    "engine": "swarm_diff",
+    "technique": "differential runtime monitor: real ws swarm-worker TorrentMaps vs reference model with connection ownership (coinciding per-worker connection keys)",
+    "packages": ["vws"],
+    "parallel": 16,
+    "steps": lambda tier, seed: swarm_steps("ws_swarm", "ws_swarm", tier),
+    "min_evaluations": {"quick": 50000, "thorough": 1000000},
+    "assumptions": ["storage level: connection-closed events carry exactly the pairs the closing connection owns in the model; what a real socket worker retracts is decided on the live tracker (C17 engine)"],
+    "level_text": "Exploration: random histories of announces (all events, left absent/0/positive, offers, answers), scrapes, connection closes and cleans from connections on two socket workers whose slot-map keys coincide, checked after every operation against a reference tracker with per-connection ownership.",
+    "level_note": "Trusted: reference model vcore::wsmodel, storage re-export hook, mock clock hook.",
+    "design_ref": "3/C08",
+}
+
+PLANS["C09"] = {
+    "title": "WebRTC offers and answers are relayed only along real, unused offers",
+    "level": "exploration",
+    "engine": "swarm_diff",
+    "technique": "differential runtime monitor over emitted OutMessages: offer fan-out and answer relay vs reference model of outstanding (receiver, offer id) expectations",
+    "packages": ["vws"],
+    "parallel": 16,
+    "steps": lambda tier, seed: swarm_steps("ws_swarm", "ws_swarm", tier),
+    "min_evaluations": {"quick": 50000, "thorough": 1000000},
+    "assumptions": ["two situations the statement leaves open are don't-care (either forward to the offerer or error to the answerer): same offer id forwarded twice to one receiver; offerer left and re-announced since the forward"],
+    "level_text": "Exploration: every OutMessage emitted by the real storage for announces with 0..6 offers and/or an answer is checked against the reference model: number, order, labels, distinct receivers and addressing of forwarded offers; answers forwarded exactly when an expectation is outstanding (expired-but-uncleaned counts as outstanding), otherwise error to the answerer or nothing.",
+    "level_note": "Trusted: reference model vcore::wsmodel; recipients are adopted from the observed legal choice.",
+    "design_ref": "3/C09",
+}
